@@ -994,7 +994,7 @@ struct Value {
         }
 
         if (type == ValueType::ValuePtr) {
-            return value_->isObject();
+            return value_->IsObject();
         }
 
         return false;
@@ -1008,7 +1008,7 @@ struct Value {
         }
 
         if (type == ValueType::ValuePtr) {
-            return value_->isArray();
+            return value_->IsArray();
         }
 
         return false;
@@ -1022,7 +1022,7 @@ struct Value {
         }
 
         if (type == ValueType::ValuePtr) {
-            return value_->isString();
+            return value_->IsString();
         }
 
         return false;
@@ -1036,7 +1036,7 @@ struct Value {
         }
 
         if (type == ValueType::ValuePtr) {
-            return value_->isUInt64();
+            return value_->IsUInt64();
         }
 
         return false;
@@ -1050,7 +1050,7 @@ struct Value {
         }
 
         if (type == ValueType::ValuePtr) {
-            return value_->isInt64();
+            return value_->IsInt64();
         }
 
         return false;
@@ -1064,7 +1064,7 @@ struct Value {
         }
 
         if (type == ValueType::ValuePtr) {
-            return value_->isDouble();
+            return value_->IsDouble();
         }
 
         return false;
@@ -1078,7 +1078,7 @@ struct Value {
         }
 
         if (type == ValueType::ValuePtr) {
-            return value_->isTrue();
+            return value_->IsTrue();
         }
 
         return false;
@@ -1092,7 +1092,7 @@ struct Value {
         }
 
         if (type == ValueType::ValuePtr) {
-            return value_->isFalse();
+            return value_->IsFalse();
         }
 
         return false;
@@ -1106,7 +1106,7 @@ struct Value {
         }
 
         if (type == ValueType::ValuePtr) {
-            return value_->isNull();
+            return value_->IsNull();
         }
 
         return false;
